@@ -33,6 +33,10 @@ type Act struct {
 	Aname  string   `json:"aname,omitempty"`
 	Err    bool     `json:"err,omitempty"` // the implementation answers Rerror
 	Zero   bool     `json:"zero,omitempty"` // walk: the implementation answers Rwalk without any qid (the extreme partial walk)
+	// version: a Tversion in mid-session (the history is sequential: nothing is
+	// outstanding), with this dialect string and an msize not below the negotiated one
+	Ver   string `json:"ver,omitempty"`
+	Msize uint32 `json:"msize,omitempty"`
 }
 
 type Case struct {
@@ -94,6 +98,25 @@ func run(c *Case) (err error) {
 	for i := range c.Actions {
 		a := &c.Actions[i]
 		s := ss[a.Conn%len(ss)]
+		if a.Kind == "version" {
+			// the statement lists what invalidates a fid (a successful Tclunk, any
+			// Tremove): a Tversion is an unrelated operation, the valid set is unchanged
+			r, err := s.Version(a.Msize, a.Ver)
+			if err != nil {
+				return fmt.Errorf("step %d (Tversion %q msize %d on conn %d): %w", i, a.Ver, a.Msize, a.Conn, err)
+			}
+			if r.Type != ref9p.Rversion {
+				return fmt.Errorf("step %d: Tversion %q msize %d on conn %d answered %s %q", i, a.Ver, a.Msize, a.Conn, ref9p.TypeName(r.Type), r.Ename)
+			}
+			if !c.NoProbe {
+				for _, p := range ss {
+					if err := p.Probe(Universe); err != nil {
+						return fmt.Errorf("after step %d (Tversion %q msize %d on conn %d), conn %s: %w", i, a.Ver, a.Msize, a.Conn, p.Name, err)
+					}
+				}
+			}
+			continue
+		}
 		m := a.msg(i)
 		if m == nil {
 			return fmt.Errorf("harness: bad action %q", a.Kind)
@@ -148,14 +171,31 @@ func execute(test string, c *Case) error {
 // classify replays the actions on the model alone (assuming the
 // implementation's scripted answers) to decide non-triviality and labels.
 func classify(c *Case) bool {
-	rebound, partialProbe := false, false
+	rebound, partialProbe, versionMid := false, false, false
+	valid := map[[2]int]bool{} // numbers that a binding request named earlier (approximation of "valid")
 	type hist struct{ bound, invalidated bool }
 	seen := map[[2]int]*hist{}
 	for i, a := range c.Actions {
 		hx.Label("act=" + a.Kind)
 		key := [2]int{a.Conn, int(a.Fid)}
 		switch a.Kind {
+		case "version":
+			n := 0
+			for k, v := range valid {
+				if v && k[0] == a.Conn {
+					n++
+				}
+			}
+			if n > 0 {
+				versionMid = true
+				hx.Label("version with fids established: " + a.Ver)
+			} else {
+				hx.Label("version with an empty table")
+			}
 		case "attach", "auth":
+			if !a.Err {
+				valid[key] = true
+			}
 			h := seen[key]
 			if h == nil {
 				seen[key] = &hist{bound: true}
@@ -163,6 +203,7 @@ func classify(c *Case) bool {
 				rebound = true
 			}
 		case "clunk", "remove":
+			valid[key] = false
 			if h := seen[key]; h != nil {
 				h.invalidated = true
 			}
@@ -179,13 +220,18 @@ func classify(c *Case) bool {
 			}
 			if a.Newfid == a.Fid {
 				hx.Label("walk in place")
+			} else if !a.Err && !a.Zero {
+				valid[[2]int{a.Conn, int(a.Newfid)}] = true
 			}
 		}
 	}
 	if rebound {
 		hx.Label("history with rebind")
 	}
-	return rebound || partialProbe
+	if versionMid {
+		hx.Label("history with a Tversion in mid-session")
+	}
+	return rebound || partialProbe || versionMid
 }
 
 var names = []string{"d1", "d2", "f1", "x1", "l1", ".."}
@@ -193,10 +239,14 @@ var names = []string{"d1", "d2", "f1", "x1", "l1", ".."}
 func genAct(t *rapid.T, nconn int) Act {
 	a := Act{Conn: rapid.IntRange(0, nconn-1).Draw(t, "conn")}
 	fid := func(l string) uint32 { return rapid.SampledFrom(Universe).Draw(t, l) }
-	a.Kind = rapid.SampledFrom([]string{"attach", "attach", "auth", "walk", "walk", "walk", "open", "create", "read", "write", "stat", "wstat", "clunk", "clunk", "remove"}).Draw(t, "kind")
+	a.Kind = rapid.SampledFrom([]string{"attach", "attach", "auth", "walk", "walk", "walk", "open", "create", "read", "write", "stat", "wstat", "clunk", "clunk", "remove", "version"}).Draw(t, "kind")
 	a.Fid = fid("fid")
 	a.Err = rapid.IntRange(0, 4).Draw(t, "err") == 0
 	switch a.Kind {
+	case "version":
+		a.Fid, a.Err = 0, false
+		a.Ver = rapid.SampledFrom([]string{"9P2000", "9P2000.u"}).Draw(t, "ver")
+		a.Msize = rapid.SampledFrom([]uint32{8192, 8193, 16384, 1 << 20}).Draw(t, "msize")
 	case "attach":
 		a.Afid = rapid.OneOf(rapid.Just(uint32(ref9p.NOFID)), rapid.SampledFrom(Universe)).Draw(t, "afid")
 		a.User = rapid.SampledFrom([]string{"alice", "bob", "root", "mallory"}).Draw(t, "user")
@@ -287,6 +337,11 @@ func TestEnumTransitions(t *testing.T) {
 			)
 		}
 	}
+	for _, ver := range []string{"9P2000", "9P2000.u"} {
+		for _, ms := range []uint32{8192, 65536} {
+			actions = append(actions, Act{Kind: "version", Ver: ver, Msize: ms})
+		}
+	}
 	idx := 0
 	for _, dotu := range []bool{false, true} {
 		for _, auth := range []bool{false, true} {
@@ -320,7 +375,7 @@ func TestEnumTransitions(t *testing.T) {
 	_ = model.KDir
 	_ = absFid{}
 	if hx.Thorough() {
-		hx.Exhaustive("every action (50 per fid number x {success, implementation error}) from every abstract state of fid 1 {absent, dir, dir-open, file, file-open, auth} x 2 dialects x AuthOps on/off, each applied twice")
+		hx.Exhaustive("every action (50 per fid number x {success, implementation error}, plus Tversion x {9P2000, 9P2000.u} x {same, larger msize}) from every abstract state of fid 1 {absent, dir, dir-open, file, file-open, auth} x 2 dialects x AuthOps on/off, each applied twice")
 	}
 }
 
@@ -333,7 +388,7 @@ func TestReplay(t *testing.T) {
 }
 
 func replayEnv(t *testing.T, e *hx.Envelope) {
-	if e.Test == "overlap" {
+	if e.Test == "overlap" || e.Test == "overlapmulti" {
 		var oc OCase
 		if err := json.Unmarshal(e.Case, &oc); err != nil {
 			t.Fatalf("bad case: %v", err)
